@@ -65,7 +65,10 @@ func (t Type) String() string {
 
 type Expr interface{ T() Type }
 
-type IntLit struct{ V int64 }
+type IntLit struct {
+	V   int64
+	Oct bool // spelled with a leading zero (Go: octal), only for V >= 0
+}
 type BoolLit struct{ V bool }
 type StrLit struct {
 	V   string
